@@ -28,35 +28,11 @@ MANIFEST = {"technique": "symbolic execution of the real sign/verify/DER code ov
                          "decided by a GF(N) rational-function canonical form, range/low-S conditions by z3 (LIA)"}
 
 
-class Env:
-    """abstract-group environment installed into the shimmed pecc module for the duration of one path"""
-
-    def __init__(self):
-        self.pecc = loader.load("pecc")
-        self.fld = field.Field(N)
-        field.FIELD[0] = self.fld
-        self.grp = field.AbstractGroup(self.fld, P)
-        if not hasattr(self.pecc, "_RealS256Point"):
-            self.pecc._RealS256Point = self.pecc.S256Point
-            self.pecc._RealG = self.pecc.G
-        self.Point, self.G = self.grp.make_point_class(self.pecc._RealS256Point, self.pecc.S256Field)
-        self.pecc.G = self.G
-        self.pecc.S256Point = self.Point
-
-    def close(self):
-        field.FIELD[0] = None
-        self.pecc.G = self.pecc._RealG
-        self.pecc.S256Point = self.pecc._RealS256Point
+from checks._group import Env, with_env as _with_env
 
 
 def with_env(fn):
-    def wrapped(*a, **k):
-        e = Env()
-        try:
-            return fn(e, *a, **k)
-        finally:
-            e.close()
-    return wrapped
+    return _with_env()(fn)
 
 
 # ---------------------------------------------------------------------------------------- O1 / O5 sign
